@@ -18,6 +18,7 @@ import (
 	"github.com/gnolang/gno/tm2/pkg/sdk/auth"
 	"github.com/gnolang/gno/tm2/pkg/sdk/bank"
 	"github.com/gnolang/gno/tm2/pkg/std"
+	stypes "github.com/gnolang/gno/tm2/pkg/store/types"
 
 	"verif/sim/kernel"
 	"verif/sim/simdb"
@@ -159,9 +160,9 @@ func gnoDir(name string) string {
 	return "/verif/sim/engines/chain/gno/" + name
 }
 
-func (w *world) openNode(name string) *node {
+func (w *world) openNode(name string, prune ...stypes.PruneStrategy) *node {
 	d := w.img.disk.Clone(simdb.NewMachine())
-	n, err := newNode(name, d)
+	n, err := newNode(name, d, prune...)
 	if err != nil {
 		kernel.Harnessf("opening node %s over the genesis image: %v", name, err)
 	}
@@ -638,7 +639,8 @@ func runChain(c *kernel.Choices, p kernel.Params) *kernel.Result {
 		useTwin = false
 	}
 	if useTwin {
-		w.rst = w.openNode("rst")
+		// pruning is node-local configuration: it must not influence app hashes or results
+		w.rst = w.openNode("rst", []stypes.PruneStrategy{"", stypes.PruneEverythingStrategy, stypes.PruneNothingStrategy}[c.Intn(3)])
 		defer func() { w.rst.app.Close() }()
 	}
 
@@ -804,4 +806,5 @@ var _ = json.Marshal
 
 var engines = map[string]kernel.Engine{
 	"C01": runChain, "C02": runChain, "C10": runChain, "C14": runChain, "C15": runChain,
+	"C27": runCrash,
 }
